@@ -791,6 +791,22 @@ func splitSourceType(tname syntax.TypeId, isMap bool) syntax.TypeId {
 	return tname
 }
 
+// memberType returns the type of the member with the given name of a value of
+// the given type, if that is a known struct type with such a member, or
+// otherwise the given type.
+func memberType(tname syntax.TypeId, key string, lookup *syntax.TypeLookup) syntax.TypeId {
+	if lookup != nil && tname.ArrayDim == 0 && tname.MapDim == 0 {
+		if t, ok := lookup.Get(tname).(*syntax.StructType); ok {
+			for _, member := range t.Members {
+				if member.Id == key {
+					return member.Tname
+				}
+			}
+		}
+	}
+	return tname
+}
+
 func convertToExp(parser *syntax.Parser, split bool, val json.Marshaler,
 	tname syntax.TypeId, lookup *syntax.TypeLookup) (syntax.ValExp, error) {
 	switch val := val.(type) {
@@ -842,8 +858,12 @@ func convertToExp(parser *syntax.Parser, split bool, val json.Marshaler,
 			tname.MapDim = 0
 		}
 		for k, v := range val {
+			t := tname
+			if res.Kind == syntax.KindStruct {
+				t = memberType(tname, k, lookup)
+			}
 			if e, err := convertToExp(parser, false,
-				v, tname, lookup); err != nil {
+				v, t, lookup); err != nil {
 				return &res, err
 			} else {
 				res.Value[k] = e
@@ -865,8 +885,12 @@ func convertToExp(parser *syntax.Parser, split bool, val json.Marshaler,
 			tname.MapDim = 0
 		}
 		for k, v := range val {
+			t := tname
+			if res.Kind == syntax.KindStruct {
+				t = memberType(tname, k, lookup)
+			}
 			if e, err := convertToExp(parser, false,
-				v, tname, lookup); err != nil {
+				v, t, lookup); err != nil {
 				return &res, err
 			} else {
 				res.Value[k] = e
